@@ -256,7 +256,9 @@ def __init__(self, sample_rate=3*u.GHz, fch1=0*u.GHz, ascending=True, num_pols=2
             val = clk[0].data['value']
             prev = [a for a in val.atoms() if a.kind == 'loopvar' and str(a.args[0]).endswith('.t_start')]
             rhs = val - (Term.of(prev[0]) if prev else T.mk_attr(ant, 't_start'))
-        alts = [n * T.mk_attr(ant, 'dt'), n * T.mk_attr(sym('self'), 'dt')]
+        # (dt = 1/sample_rate of the antenna, which the array's constructor copies from its own: any of these spellings)
+        alts = [n * T.mk_attr(ant, 'dt'), n * T.mk_attr(sym('self'), 'dt'), n / T.mk_attr(sym('self'), 'sample_rate'),
+                n / T.mk_attr(ant, 'sample_rate'), n * I.get_attr(ant, 'dt', None), n * I.get_attr(sym('self'), 'dt', None)]
         ctx.ob('FORMULA', 'antenna clock advance == num_samples * dt', mg, any((rhs - a).is_zero() for a in alts),
                {'advance': pretty(rhs)}, node=clk[0].node)
         ctx.formula('FORMULA', 'antenna start flag cleared', mg, flg[0].data['value'], T.FALSE, node=flg[0].node)
